@@ -101,6 +101,20 @@ def pctLine (f : Oracle.Fam) (kind : String) (x : Text) : String :=
     | none => "PANIC"
   s!"bytes={bytes} chars=[{chars}] len={len} decode={dec} eqdecoded={eqd} text=1"
 
+/-- `pctref` (C19): the octet views of all components of a whole reference, reached through
+`parts()`, `Authority::parts()` and the segment iterators -/
+def pctrefLine (f : Oracle.Fam) (x : Text) : String :=
+  if !okArg f "ref" x then "invalid" else
+  let r := Cmp.refParts x
+  let oct (t : Text) : String := match Cmp.pctBytes t with | some b => hex b | none => "PANIC"
+  let ooct (t : Option Text) : String := match t with | some t => oct t | none => "-"
+  let ap := r.authority.map Cmp.authParts
+  let ui := ooct (ap.bind fun a => a.1)
+  let host := ooct (ap.map fun a => a.2.1)
+  let segs := (Path.segmentList r.path).map oct
+  let rsegs := (Path.segmentListRev r.path).map oct
+  s!"ui={ui} host={host} segs=[{",".intercalate segs}] rev={b01 (rsegs.reverse == segs)} query={ooct r.query} fragment={ooct r.fragment}"
+
 /-! ## provenance (C20): every result is a range of the input, or one of the constants -/
 
 def locR (r : Range) : String := s!"{r.1}+{r.2 - r.1}"
@@ -155,6 +169,13 @@ def ptrLine (f : Oracle.Fam) (full : Bool) (x : Text) : String :=
     | some _ => par
   let base := Ref.base x
   let nseg := (Path.segmentList pt).length
-  s!"whole={locR (0, x.length)} scheme={olocR s} authority={olocR a} path={locR p} query={olocR q} fragment={olocR fr} userinfo={olocR ui} host={olocR host} port={olocR port} first={olocR first} last={olocR last} fn={olocR fnm} dir={dir} par={par} poe={poe} base={locR (0, base.length)} nseg={nseg} segs_inside=1 allocs=0"
+  -- the stand-alone accessors (each scans the text again)
+  let as_ := if full then some (Parse.scheme x 0) else Parse.find_scheme x 0
+  let aa := (Parse.find_authority x 0).toOption
+  let apth := Parse.find_path x 0
+  let aq := (Parse.find_query x 0).toOption
+  let af := (Parse.find_fragment x 0).toOption
+  let acc := s!"ascheme={olocR as_} aauthority={olocR aa} apath={locR apth} aquery={olocR aq} afragment={olocR af}"
+  s!"whole={locR (0, x.length)} scheme={olocR s} authority={olocR a} path={locR p} query={olocR q} fragment={olocR fr} userinfo={olocR ui} host={olocR host} port={olocR port} first={olocR first} last={olocR last} fn={olocR fnm} dir={dir} par={par} poe={poe} base={locR (0, base.length)} nseg={nseg} segs_inside=1 allocs=0 {acc}"
 
 end IrefVerif.Model
